@@ -12,8 +12,8 @@ import (
 	"net"
 	"sort"
 	"strings"
-	"time"
 	"sync/atomic"
+	"time"
 
 	"github.com/c2FmZQ/ech"
 	"github.com/c2FmZQ/ech/dns"
@@ -413,6 +413,12 @@ func (z *zone) answer(name string, t uint16) dohmem.Answer {
 				ext = append(ext, httpsRR(owner, svc{Prio: 1, Target: "evil.example", ECH: true}))
 			}
 		}
+		// ... and a foreign record BETWEEN the genuine ones (RRsets need not be contiguous in an answer): what follows it still counts
+		if n := len(a.Records); n >= 2 {
+			mixed := append([]dnsref.RR{}, a.Records[:1]...)
+			mixed = append(append(mixed, p), a.Records[1:]...)
+			a.Records = mixed
+		}
 		if len(name) < 150 {
 			a.Records = append(ext, a.Records...)
 		}
@@ -569,7 +575,7 @@ func expectStr(e expectation) string {
 
 func Run(r *ev.Run) {
 	log.SetOutput(io.Discard) // the package logs alias loops through the standard logger
-	r.Rule("reference resolver model (RFC 9460 §2.3, §2.4.2, §3 + property text) + total replay: universes = HTTPS data {none, NXDOMAIN/SERVFAIL/REFUSED/FORMERR/NOTIMP, alias chains of length 1..6, 12 and 30 (the last name optionally starting with an underscore label) ending in {nothing, service set, alias '.', loop to origin/first/self, NXDOMAIN, SERVFAIL}, 17 service sets (1-2 records, priorities in both orders and equal, targets '.', t1, t2, the owner/origin name spelled out, port, ech), failing responses that nevertheless carry an answer section} x final-name addresses {A?,AAAA?} x address rcode {ok, NXDOMAIN, SERVFAIL, SERVFAIL/REFUSED on the AAAA lookup only} x in-answer CNAME x target addresses {none, A, A+AAAA (+second target A), SERVFAIL, first target SERVFAIL while the second has an address} x poisoned answers on/off (records of the asked type owned by an unrelated name, by names that merely start with the queried name, and an unrelated CNAME followed by data for its target, before and after the genuine records; the in-answer CNAME target is spelled in mixed case) x 12 name forms (host, host:port, URIs with http/https/other schemes, upper-case scheme, trailing dot); plus literal/localhost forms and hostile lengths (host 253..300 bytes, labels 63/64, schemes 1..300 bytes). Every query is served by an in-memory DoH responder and logged. distinct = distinct (universe, form)")
+	r.Rule("reference resolver model (RFC 9460 §2.3, §2.4.2, §3 + property text) + total replay: universes = HTTPS data {none, NXDOMAIN/SERVFAIL/REFUSED/FORMERR/NOTIMP, alias chains of length 1..6, 12 and 30 (the last name optionally starting with an underscore label) ending in {nothing, service set, alias '.', loop to origin/first/self, NXDOMAIN, SERVFAIL}, 17 service sets (1-2 records, priorities in both orders and equal, targets '.', t1, t2, the owner/origin name spelled out, port, ech), failing responses that nevertheless carry an answer section} x final-name addresses {A?,AAAA?} x address rcode {ok, NXDOMAIN, SERVFAIL, SERVFAIL/REFUSED on the AAAA lookup only} x in-answer CNAME x target addresses {none, A, A+AAAA (+second target A), SERVFAIL, first target SERVFAIL while the second has an address} x poisoned answers on/off (records of the asked type owned by an unrelated name, by names that merely start with the queried name, and an unrelated CNAME followed by data for its target, before, between and after the genuine records; the in-answer CNAME target is spelled in mixed case) x 12 name forms (host, host:port, URIs with http/https/other schemes, upper-case scheme, trailing dot); plus literal/localhost forms and hostile lengths (host 253..300 bytes, labels 63/64, schemes 1..300 bytes). Every query is served by an in-memory DoH responder and logged. distinct = distinct (universe, form)")
 	r.Assume("reference model in checks/c14; chains of up to 3 aliases must be followed, longer ones may be followed or abandoned (fallback to the origin's addresses or an error); alias loops must end in the fallback or an error; RRsets mixing alias and service mode are excluded (RFC 9460 leaves them to the client)",
 		"the DoH responder chases CNAMEs itself (recursive-resolver behaviour): answers carry the CNAME followed by the target's records")
 	var svcSets [][]svc
@@ -948,6 +954,8 @@ func hostile(r *ev.Run, srv *dohmem.Server) {
 	// empty labels that only appear in the COMPLETE query name (_port._scheme.host): in the scheme, or a root host with a port
 	inputs = append(inputs, ".:8443", "a..b://o.example:123", "foo.://o.example", ".foo://o.example:123", "a.b://o.example:123", "foo://.:123", "..://o.example:1")
 	inputs = append(inputs, "o.example\\", "abc\\", "\\", "a\\.b.example", "https://o.example\\/", "o.example\\:8443")
+	// escaped dots join what looks like several short labels into ONE label on the wire: the limits hold for what is sent
+	inputs = append(inputs, label(40)+"\\."+label(40)+".example.com", label(62)+"\\."+label(62)+"\\."+label(62)+"\\."+label(60), label(31)+"\\."+label(31)+".example", label(32)+"\\."+label(31)+".example:8443")
 	inputs = append(inputs, "o.example..", "o.example..:8443", "https://o.example../x", "o.example...", ".o.example", "", ".", "..", "a..b", ":", ":443", "://", "https://", "https://:443", "o.example:99999", "o.example:0", "o.example:-1", "[::1", "o.example:443:443", "https://o.example:port/", "\x00", "o\x00.example", strings.Repeat(".", 300))
 	for _, in := range inputs {
 		srv.Reset()
